@@ -689,12 +689,13 @@ example : TopoNodup { topo := (List.range 24).map fun c => { cpu := c, core := c
     decoded to exactly `Release(node, uid)` - whatever the old object was (in particular when nothing but the status
     changed) - after which the pod is recorded nowhere on that node, and no other pod's record moved.  (updatePod is the
     only place that releases a completed pod; skipping status-only updates keeps a finished Job pod's CPUs forever.) -/
-theorem terminal_update_releases (M : Mgr) (old new : PodObj) (hn : new.node ≠ 0) (ht : new.term = true) :
+theorem terminal_update_releases (M : Mgr) (old new : PodObj) (huid : old.uid = new.uid) (hn : new.node ≠ 0)
+    (ht : new.term = true) :
     decode (.podUpdate old new) = [.release new.node new.uid] ∧
     findPod ((handle M (.podUpdate old new)).L new.node).pods new.uid = none ∧
     (∀ m u, u ≠ new.uid → findPod ((handle M (.podUpdate old new)).L m).pods u = findPod (M.L m).pods u) := by
   have hd : decode (.podUpdate old new) = [.release new.node new.uid] := by
-    simp [decode, decodeUpdate, decodeDelete, hn, ht]
+    simp [decode, decodeUpdate, decodeDelete, hn, ht, huid]
   have hh : handle M (.podUpdate old new) = M.apply (.release new.node new.uid) := by
     show (decode (.podUpdate old new)).foldl Mgr.apply M = _
     rw [hd]; rfl
@@ -710,8 +711,8 @@ theorem terminal_update_releases (M : Mgr) (old new : PodObj) (hn : new.node ≠
 /-- **topology arrives ⇒ re-recorded on the next update**: any update (also a pure status heartbeat, `old = new`) of a live
     pod with a well-formed allocation that reaches the manager while the node's topology is valid records exactly the
     annotation's allocation - so a pod dropped earlier by `Update` (no valid CPU topology yet) enters the ledger. -/
-theorem topology_late_rerecorded (M : Mgr) (old new : PodObj) (hn : new.node ≠ 0) (ht : new.term = false)
-    (ha : new.annOK = true) (hv : M.valid new.node = true) :
+theorem topology_late_rerecorded (M : Mgr) (old new : PodObj) (huid : old.uid = new.uid) (hn : new.node ≠ 0)
+    (ht : new.term = false) (ha : new.annOK = true) (hv : M.valid new.node = true) :
     findPod ((handle M (.podUpdate old new)).L new.node).pods new.uid = some new.alloc := by
   have hd : decode (.podUpdate old new) = [.update new.node new.alloc] := by
     simp only [PodObj.annOK, Bool.and_eq_true, bne_iff_ne, ne_eq, Bool.or_eq_true, beq_iff_eq,
@@ -721,7 +722,8 @@ theorem topology_late_rerecorded (M : Mgr) (old new : PodObj) (hn : new.node ≠
       rcases h3 with h3 | h3
       · simp [h3]
       · simp [h3]
-    simp only [decode, decodeUpdate, if_neg hn, ht, Bool.false_eq_true, ↓reduceIte, if_neg h1, if_neg h2, h3', h4]
+    simp only [decode, ne_eq, huid, not_true_eq_false, decodeUpdate, if_neg hn, ht, Bool.false_eq_true, ↓reduceIte,
+      if_neg h1, if_neg h2, h3', h4]
   show findPod (((decode (.podUpdate old new)).foldl Mgr.apply M).L new.node).pods new.uid = _
   rw [hd]
   simp only [List.foldl_cons, List.foldl_nil, Mgr.apply, hv, ↓reduceIte, setL_L, findPod_updatePod]
@@ -787,19 +789,110 @@ example : HistoryWF (Mgr.empty, fun _ => none) exHist := by
 
 example : Settled (erun exHist).2 := by
   intro u w hw hd ht hn he
-  simp only [erun, exHist, List.foldl_cons, List.foldl_nil, estep, track, deliver] at hw
+  have hW : (erun exHist).2 = deliver (runEvents (exHist.take 4)).valid
+      (deliver (runEvents (exHist.take 3)).valid (deliver (runEvents (exHist.take 2)).valid
+        (deliver Mgr.empty.valid (fun _ => none) exP1) exP1) exP2) { exP2 with term := true } := by
+    simp [erun, exHist, estep, track, runEvents, exP1, exP2]
+  rw [hW] at hw
   by_cases h2 : u = 2
   · subst h2
-    simp [exP2, exP1] at hw
+    simp [deliver, exP2] at hw
     subst hw
     simp [delivered] at ht
   · by_cases h1 : u = 1
     · subst h1
-      simp [exP2, exP1] at hw
+      simp [deliver, exP2, exP1] at hw
       subst hw
-      simp [delivered, handle, decode, decodeUpdate, exP1, PodObj.annOK, PodObj.statusNuma, PodObj.statusCpus,
-        Mgr.apply, Mgr.empty]
-    · simp [exP2, exP1, h1, h2] at hw
+      simp [delivered, runEvents, exHist, handle, decode, decodeUpdate, exP1, PodObj.annOK, PodObj.statusNuma,
+        PodObj.statusCpus, Mgr.apply, Mgr.empty]
+    · simp [deliver, exP2, exP1, h1, h2] at hw
+
+/-- **fresh ⇒ recorded** (oracle clause C, at every point of every well-formed history): a pod whose latest event carried
+    a well-formed allocation and reached the manager while its node's topology was valid is live on that node and
+    recorded there with exactly the allocation of its annotation. -/
+theorem fresh_pod_recorded (evs : List Event) (hwf : HistoryWF (Mgr.empty, fun _ => none) evs)
+    (u : Nat) (w : PodW) (hw : (erun evs).2 u = some w) (hf : w.fresh = true) :
+    w.liveOn w.obj.node ∧ findPod ((runEvents evs).L w.obj.node).pods u = some w.obj.alloc := by
+  have h := einv_erun evs hwf
+  rw [erun_fst] at h
+  exact h.frsh u w hw hf
+
+/-- **allocations after the history**: after a settled well-formed history, with sharing limit 1, a successful Allocate on
+    the ledger of node `n` hands out no CPU that the annotation of a pod live on `n` names - the ledger the informer glue
+    built is good enough for `allocate_drawn` to mean "free in the world". -/
+theorem alloc_after_events_disjoint (evs : List Event) (hwf : HistoryWF (Mgr.empty, fun _ => none) evs)
+    (hs : Settled (erun evs).2) (cfg : NodeCfg) (n : Nat) (req : AllocReq)
+    (htopo : cfg.cpuIds.Nodup) (hn : 0 ≤ req.ncpu) (hmax : cfg.maxRef = 1)
+    (p : PodAlloc) (h : allocate cfg ((runEvents evs).L n) req = some p) :
+    ∀ c ∈ p.cpus, ∀ u w, (erun evs).2 u = some w → w.liveOn n → w.everOK = true → c ∉ w.obj.alloc.cpus := by
+  intro c hc u w hw hl he hmem
+  have hdrawn := (allocate_cpus_drawn cfg _ req (take_contract (cfg.pickCtx req.excl) htopo _ _) hn p h).2.2.1 c hc
+  have hlt := ((available_spec cfg.cpuIds _ cfg.maxRef cfg.reserved (by omega) c).mp hdrawn).2.2
+  have hall := ledger_eq_live_after_events evs hwf
+  simp only at hall
+  have hu : w.obj.alloc.uid = u := (einv_erun evs hwf).uidk u w hw
+  have hin : w.obj.alloc ∈ ((runEvents evs).L n).pods :=
+    (hall.2.1 hs n w.obj.alloc).mpr ⟨w, by rw [hu]; exact hw, hl, he, rfl⟩
+  have href := hall.2.2.1 n c
+  have hle := cnt_le_holdCount hin c
+  have hpos : 1 ≤ cnt w.obj.alloc.cpus c := by
+    unfold cnt
+    have := List.count_pos_iff.mpr hmem
+    omega
+  omega
+
+/-- a live, assigned pod: updatePod does nothing or calls Update with the annotation's allocation. -/
+theorem decodeUpdate_live (old : Option PodObj) (new : PodObj) (hn : new.node ≠ 0) (ht : new.term = false) :
+    decodeUpdate old new = [] ∨ decodeUpdate old new = [.update new.node new.alloc] := by
+  unfold decodeUpdate
+  rw [if_neg hn]
+  simp only [ht, Bool.false_eq_true, ↓reduceIte]
+  split
+  · exact Or.inl rfl
+  · split
+    · exact Or.inl rfl
+    · split
+      · exact Or.inl rfl
+      · split
+        · exact Or.inl rfl
+        · exact Or.inr rfl
+
+/-- **the informer's re-assertion is a no-op** (premise of `update_atomic_safe`, now for the event path): an add / update
+    event of a live pod whose annotation carries the allocation the ledger already records for it (what PreBind wrote
+    after Reserve) leaves every pod record of every node as it was. -/
+theorem informer_reassert_keeps_records (M : Mgr) (old : Option PodObj) (new : PodObj)
+    (hn : new.node ≠ 0) (ht : new.term = false)
+    (hrec : findPod (M.L new.node).pods new.uid = some new.alloc) (m u : Nat) :
+    findPod (((decodeUpdate old new).foldl Mgr.apply M).L m).pods u = findPod (M.L m).pods u := by
+  rcases decodeUpdate_live old new hn ht with h | h
+  · rw [h]; rfl
+  · rw [h]
+    simp only [List.foldl_cons, List.foldl_nil, Mgr.apply]
+    split
+    · simp only [setL_L]
+      split
+      · rename_i hm; subst hm
+        rw [findPod_updatePod]
+        split
+        · rename_i hu; rw [hu]; exact hrec.symm
+        · rfl
+      · rfl
+    · rfl
+
+/-- **changed UID ⇒ the old pod is released** (repaired in /repo by 224a2b7; before, `OnUpdate` handed the pair to
+    updatePod, which recorded the new pod and never released the old UID: C06:events-replaced-pod-in-ledger).  A shared
+    informer delivers OnUpdate(old, new) with DIFFERENT UIDs when a pod was deleted and re-created under the same name
+    while the watch was down (the re-list replaces the stored object; no delete event for the old UID follows): the
+    event decodes to deletePod(old) followed by updatePod(nil, new), and afterwards the old UID is recorded nowhere on its
+    node.  Such events are part of `EventWF`, so `ledger_eq_live_after_events` covers histories that contain them. -/
+theorem uid_swap_releases_old (M : Mgr) (old new : PodObj) (huid : old.uid ≠ new.uid) (hn : old.node ≠ 0) :
+    decode (.podUpdate old new) = .release old.node old.uid :: decodeUpdate none new ∧
+    findPod ((M.apply (.release old.node old.uid)).L old.node).pods old.uid = none := by
+  refine ⟨by simp [decode, decodeDelete, huid, hn], ?_⟩
+  simp [Mgr.apply, setL_L, findPod_releasePod]
+
+-- the replaced pod really leaves the ledger: pod 1 (cpus {0,1}) is replaced by pod 2 (cpus {2}) on node 1
+example : ((runEvents [.topo 1 true, .podAdd exP1, .podUpdate exP1 exP2]).L 1).pods.map (·.uid) = [2] := by decide
 
 /-! ## First touch of a node name (round 3): get-or-create of the ledger object -/
 
